@@ -14,7 +14,10 @@ MANIFEST = dict(
          "against Node::add_keysend / check_onchain_tx / restore_node on the same histories on every run, and a "
          "sliding-window monitor checks the property itself on the implementation's answers; for the fee side as the "
          "daemon reaches it (SignWithdrawal through the wire codec and RootHandler) a monitor checks that the fee control "
-         "books what the signed transaction really gives away (true input values from the previous transactions).",
+         "books what the signed transaction really gives away (true input values from the previous transactions).  The "
+         "VelocityApprover of vls-protocol-signer (the same control in front of a prompting delegate) is driven with sequential "
+         "histories and with a second request arriving while the first waits at the delegate; the window monitor runs on what went "
+         "through without a prompt (implementation-side only: the interleaving is not a model history).",
     design="§4 C12",
     note=lib.TB + "Additionally trusted: tools/gen_rustfn.py (a construct outside its fragment is an error, never a guess) and the meaning "
          "Base/Rust.v gives to u64/usize arithmetic, Vec operations and loops (64-bit target).  Modelled, not verified: serde round trip of the persisted control; clock monotonicity is the "
@@ -69,6 +72,16 @@ def run(res):
             res.violation("node-level approve/restart history disagrees with Model.Velocity.vstep (correspondence velocity-node)",
                           {"correspondence": "velocity-node", "theorem": "C12_window", "case": c, "model": model},
                           has_input=False)
+    # the VelocityApprover of vls-protocol-signer (auto-approval below its own limit, a prompt above it): sequential
+    # histories and the interleaving "a request waits at the delegate while another arrives", window monitor on
+    # what went through without a prompt
+    appr = lib.run_harness("velocity", "approver", res.seed, 25 if quick else 250, res.tier, timeout=3000)
+    acases = appr.get("ACASE", [])
+    for c in [c for c in acases if c.get("violation")][:2]:
+        res.violation("VelocityApprover let more through without asking than its limit allows inside one window: %s" % c["violation"],
+                      {"domain": "velocity-approver", "seed": res.seed, "case": c})
+    cov["approver_histories"] = len(acases)
+    cov["approver_stats"] = appr.get("STATS", [])
     # the fee side as the daemon reaches it: SignWithdrawal through the wire codec and RootHandler (the onchain
     # domain's handler sub-domain, true input values taken from the previous transactions): what the fee control
     # books for a signed transaction is what that transaction gives away -- the amounts C12_window sums are the
@@ -107,6 +120,7 @@ def run(res):
         "rule": "bare: random (buckets, interval, limit) x <=14 inserts with gaps at 0, interval-1, interval, "
                 "(nb-1)*interval, nb*interval(+1) and amounts at 0, 1, limit/2(+1), limit, limit+1, 2^64-2, 2^64-1; "
                 "node: add_keysend (payment control) and check_onchain_tx (fee control) under a ManualClock with restarts from the store and heartbeats (which prune approvals that ran out; pauses up to 25 h) in between, projected per control; "
+                "approver: VelocityApprover<prompting delegate> with keysend approvals at bucket boundaries, one step in three with a second request arriving while the first waits at the delegate (two threads), checked by the window monitor only; "
                 "handler: SignWithdrawal messages (1-3 wallet inputs of every script kind, honest and lying witness_utxo / previous transactions) through the wire codec and RootHandler, "
                 "the booked fee compared with true inputs minus beneficial outputs; a case is "
                 "non-trivial when it has both an approved and a refused insert (node: and a restart); "
